@@ -4,7 +4,11 @@
 // no-op or a plain pass-through, so overlaid code behaves as shipped.
 package simhook
 
-import "sync/atomic"
+import (
+	"runtime"
+	"strings"
+	"sync/atomic"
+)
 
 // Scheduler is what a harness installs to own interleavings.
 type Scheduler interface {
@@ -67,7 +71,45 @@ func WrapErr(fn func() error) func() error {
 	}
 	wait := s.Register("errgroup")
 	return func() error {
+		defer Recover()
 		wait()
 		return fn()
 	}
+}
+
+// ---- panics on goroutines started by code under test -------------------------
+
+var panicHook atomic.Pointer[func(v any, where string)]
+
+// InstallPanicHook makes Recover report panics instead of letting them kill
+// the process (a panic on a goroutine falco started cannot be recovered by
+// the harness in any other way).
+func InstallPanicHook(f func(v any, where string)) { panicHook.Store(&f) }
+func UninstallPanicHook()                          { panicHook.Store(nil) }
+
+// Recover is deferred first thing in goroutines the overlay rewrote.
+func Recover() {
+	h := panicHook.Load()
+	if h == nil {
+		return // not recovering: the panic continues as shipped
+	}
+	if v := recover(); v != nil {
+		(*h)(v, innermost())
+	}
+}
+
+func innermost() string {
+	pcs := make([]uintptr, 64)
+	n := runtime.Callers(3, pcs)
+	frames := runtime.CallersFrames(pcs[:n])
+	for {
+		f, more := frames.Next()
+		if i := strings.Index(f.Function, "falco/v2/"); i >= 0 {
+			return f.Function[i+len("falco/v2/"):]
+		}
+		if !more {
+			break
+		}
+	}
+	return "?"
 }
